@@ -154,7 +154,29 @@ func mangle(s string) string {
 func typeKey(t types.Type) string {
 	s := types.TypeString(t, func(p *types.Package) string { return p.Path() })
 	s = strings.ReplaceAll(s, repoModule+"/pkg/", "")
-	return s
+	return unaliasAny(s)
+}
+
+// unaliasAny rewrites the predeclared alias `any` (printed by go/types for alias types) to interface{}: []any and
+// []interface{} are the same type and must share heap components and type tags.
+func unaliasAny(s string) string {
+	if !strings.Contains(s, "any") {
+		return s
+	}
+	isW := func(c byte) bool {
+		return c == '_' || c == '.' || c >= '0' && c <= '9' || c >= 'a' && c <= 'z' || c >= 'A' && c <= 'Z'
+	}
+	var b strings.Builder
+	for i := 0; i < len(s); {
+		if strings.HasPrefix(s[i:], "any") && (i == 0 || !isW(s[i-1])) && (i+3 == len(s) || !isW(s[i+3]) || s[i+3] == '.') && !(i+3 < len(s) && s[i+3] == '.') {
+			b.WriteString("interface{}")
+			i += 3
+			continue
+		}
+		b.WriteByte(s[i])
+		i++
+	}
+	return b.String()
 }
 
 func intRange(t types.Type) (lo, hi string, ok bool) {
